@@ -91,6 +91,7 @@ type Path struct {
 	fs        map[string]*memFile
 	markers   map[int]*Term
 	keyCounter int
+	coverPending []string
 	rands     map[*value]*randState
 	randMemo  map[string][]int
 	handles   map[*value]*fileHandle
@@ -543,20 +544,37 @@ func (p *Path) check(cond *Term, label, kind, pos string) {
 	p.assertPC(cond)
 }
 
+// cover records that label was reached; its witness is a model of the complete path
+// condition, taken when the path ends (so the vector binds every input of the run).
 func (p *Path) cover(label string) {
 	if _, ok := p.covers[label]; ok {
 		return
 	}
+	p.covers[label] = nil
+	p.coverPending = append(p.coverPending, label)
+}
+
+func (p *Path) resolveCovers() {
+	if len(p.coverPending) == 0 {
+		return
+	}
 	if p.concrete != nil {
-		p.covers[label] = map[string]string{}
+		for _, l := range p.coverPending {
+			p.covers[l] = map[string]string{}
+		}
 		return
 	}
 	r, m := p.solver.CheckModel(p.varNames())
-	if r == Sat {
-		p.covers[label] = p.modelMap(m)
-	} else if r == Unknown {
-		p.covers[label] = map[string]string{"_": "unknown"}
+	for _, l := range p.coverPending {
+		if r == Sat {
+			p.covers[l] = p.modelMap(m)
+		} else if r == Unknown {
+			p.covers[l] = map[string]string{"_": "unknown"}
+		} else {
+			delete(p.covers, l)
+		}
 	}
+	p.coverPending = nil
 }
 
 func (p *Path) assume(c *Term, what string) {
